@@ -6,6 +6,7 @@ mod exprs;
 mod c01;
 mod c02;
 mod c07;
+mod c0xd;
 mod c09;
 mod c14;
 mod c20;
@@ -32,6 +33,9 @@ fn suite(name: &str, thorough: bool) -> Vec<Template> {
         "c03" => c02::templates_point(thorough),
         "c08" => c02::templates_bounds(thorough),
         "c16" => c02::templates_bounded(thorough),
+        "c01d" => c0xd::templates_dated(thorough),
+        "c02d" => c0xd::templates_hint(thorough),
+        "c02e" => c0xd::templates_expr_hint(thorough),
         "c07" => c07::templates(thorough),
         "c09" => c09::templates(thorough),
         "c14" => c14::templates(thorough),
@@ -138,7 +142,9 @@ fn main() {
                     model.insert(k.to_string(), v.parse::<i64>().expect("integer model value"));
                 }
             }
-            let templates = suite(&name, true);
+            // the quick family is not always a subset of the thorough one: look in both
+            let mut templates = suite(&name, true);
+            templates.extend(suite(&name, false));
             let t = templates.iter().find(|t| t.id == id).unwrap_or_else(|| panic!("template {id} not found"));
             let rep = vrt::replay(&t.id, model, || (t.run)());
             println!("{}", rep.to_json());
